@@ -945,7 +945,17 @@ def eval_c13(batches, tier, seed, known, info):
             out['violations'].append({'kind': 'the separate-package layout does not compile', 'batch': b['dir'], 'error': b['status'].get('error', '')[:600]})
             continue
         if st != 'done':
-            out['tie_breaks'].append({'batch': b['dir'], 'diff': 'batch did not complete: ' + json.dumps(b['status'])[:300]})
+            # the separate-package layout did not get as far as running: does the same-package layout of the same case?
+            c = copy.deepcopy(b['case'])
+            c['yaml']['defaultPackageName'] = ''
+            c['yaml']['targetPackageName'] = ''
+            c['cli'] = [kv for kv in c['cli'] if kv['k'] not in ('default_package_name', 'target_package_name')]
+            v = run_variant(info, 'c13same', c)
+            if v['plugin'] and v['plugin'].get('exit') == 0 and v['static'] and not v['static'].get('parseError') and st in ('plugin', 'generators', 'static'):
+                out['violations'].append({'kind': 'the separate-package layout is not generated where the same-package layout of the same case is',
+                                          'batch': b['dir'], 'variant': v['dir'], 'status': json.dumps(b['status'])[:400]})
+            else:
+                out['tie_breaks'].append({'batch': b['dir'], 'diff': 'batch did not complete: ' + json.dumps(b['status'])[:300]})
             continue
         # the struct package is imported under a qualifier
         imports = (b['static'] or {}).get('imports') or {}
